@@ -5,6 +5,7 @@
     positive at the point s0 ([side_ok]), then for every node the second component of its jet
     is the derivative at s0 (Coquelicot's [is_derive]) of the node's value as a function of the
     parameter s on which the DAG's variables depend, and the first component is the value. *)
+Set Warnings "-ambiguous-paths,-notation-overridden".
 From Coq Require Import ZArith QArith Qreals Reals List Bool Lia Lra.
 From Coquelicot Require Import Coquelicot.
 From P Require Import Expr.
